@@ -50,7 +50,16 @@ CLAIMED = {
 
 PENDING_REASON = "check not built yet in this session (planned; see DESIGN.md §11 staging) - not claimed until its check passes on the unchanged tree"
 
+def load_fragments():
+    """checks/cxx.manifest.json: {"property_id","text","note","technique","ref"} (one per property)"""
+    import glob
+    for f in sorted(glob.glob(os.path.join(ROOT, "checks", "*.manifest.json"))):
+        d = json.load(open(f))
+        CLAIMED[d["property_id"]] = dict(text=d["text"], note=d["note"], technique=d["technique"], ref=d.get("ref", ""))
+
+
 def main():
+    load_fragments()
     props = [json.loads(l) for l in open(os.path.join(ROOT, "properties.jsonl"))]
     checks, na = [], []
     for p in props:
